@@ -119,7 +119,7 @@ func TestVerifWire(t *testing.T) {
 	}
 	// the same builders behind a real PUB socket, received on a SUB socket
 	for _, kind := range []string{"record", "summary"} {
-		port := 40000 + rng.Intn(10000)
+		port := vFreePort("tcp")
 		conv := messageRecords
 		if kind == "summary" {
 			conv = messageSummaries
